@@ -251,6 +251,20 @@ func solveAll(obls []*Obligation, qdir string, timeout time.Duration) {
 			if ob.Cover {
 				// cover checks only need one solver; unknown is acceptable, unsat is vacuity
 				ob.Result = runQuery(qdir, ob.Name, q, timeout/2, false, []string{"z3-new"})
+				if ob.Result.Status != "sat" && ob.Result.Status != "unsat" {
+					// quantified assumptions usually leave the solver undecided; the quantifier-free part of
+					// all assumptions (unsliced) is decidable: unsat there is a definite contradiction
+					r2 := runQuery(qdir, ob.Name+".ground", groundOnly(ob.queryText()), timeout/2, false, []string{"z3-new"})
+					switch r2.Status {
+					case "unsat":
+						r2.Time += ob.Result.Time
+						ob.Result = r2
+					case "sat":
+						ob.Result.Status = "sat"
+						ob.Result.Solver += "(ground)"
+						ob.Result.Time += r2.Time
+					}
+				}
 				return
 			}
 			ob.Result = runQuery(qdir, ob.Name, q, timeout, false, nil)
